@@ -67,6 +67,7 @@ fn panic_sig(f: &Failure) -> String {
 }
 
 fn one_mode(
+    ctx: &Ctx,
     bytes: &[u8],
     order: u8,
     do_gc: bool,
@@ -137,6 +138,28 @@ fn one_mode(
         )
     })?;
     if let Err(e) = validate_walrus(&emitted) {
+        // the recorded GC finding (C06): the same edits without the pass give
+        // a valid module in which a `ref.func` target is declared only by an
+        // element segment that the pass removes
+        if do_gc && e.contains("undeclared function reference") {
+            if let Ok(Ok(mut m2)) = wal::parse(bytes, &cfg.to_config()) {
+                let mut ech2 = Ch::new(edit_bytes);
+                if n_edits > 0 {
+                    let _ = guard("edit", || crate::edits::apply(&mut m2, &mut ech2, n_edits));
+                }
+                if let Ok(nogc) = wal::emit(&mut m2) {
+                    if validate_walrus(&nogc).is_ok() && super::c01::passive_only_declaration(&nogc) {
+                        return ctx.known_or(
+                            out,
+                            Failure::new(
+                                "invalid-output:undeclared function reference:only-declaration-was-an-element-segment-the-pass-removes",
+                                format!("output rejected by reference validator: {} [gc={} edits={:?} {}]", e, do_gc, log, origin),
+                            ),
+                        );
+                    }
+                }
+            }
+        }
         return Err(Failure::new(
             format!("invalid-output:{}", normalise_msg(&e)),
             format!("output rejected by reference validator: {} [gc={} edits={:?} {}]", e, do_gc, log, origin),
@@ -145,7 +168,7 @@ fn one_mode(
     Ok(())
 }
 
-pub fn check(_ctx: &Ctx, input: &Input) -> CaseResult {
+pub fn check(ctx: &Ctx, input: &Input) -> CaseResult {
     let mut out = CaseOut::default();
     match input {
         Input::Choices { gen, bytes } => {
@@ -185,7 +208,7 @@ pub fn check(_ctx: &Ctx, input: &Input) -> CaseResult {
                     out.label("mode:dwarf-generation-on");
                 }
             }
-            one_mode(&module, mode >> 6, do_gc, names, producers, dwarf_on, &edit_bytes, n_edits, &mut out, &p.origin)?;
+            one_mode(ctx, &module, mode >> 6, do_gc, names, producers, dwarf_on, &edit_bytes, n_edits, &mut out, &p.origin)?;
             if out.nontrivial {
                 out.sample = Some(json!({"origin": p.origin, "bytes": p.bytes.len(), "gc": do_gc, "edits": n_edits,
                     "labels": out.labels.iter().filter(|l| l.starts_with("edit:")).collect::<Vec<_>>()}));
@@ -207,7 +230,7 @@ pub fn check(_ctx: &Ctx, input: &Input) -> CaseResult {
                             if order == 2 && (!do_gc || n_edits == 0) {
                                 continue;
                             }
-                            one_mode(bytes, order, do_gc, names, producers, false, &eb, n_edits, &mut out, origin)?;
+                            one_mode(ctx, bytes, order, do_gc, names, producers, false, &eb, n_edits, &mut out, origin)?;
                         }
                     }
                 }
